@@ -137,6 +137,9 @@ type Ctx struct {
 	nq          int
 	pureDepth   int
 	inlineStack []*types.Func
+	inQuant     int
+	byteMems    map[string]bool // A2 symbols holding byte memories: every cell is in [0,255]
+	byteArrs    map[string]bool // A1 symbols holding bytes
 }
 
 type inlineFrame struct {
@@ -433,6 +436,9 @@ func (c *Ctx) sliceWF(sv SliceV) string {
 
 // typed assumption about a value read from the heap
 func (c *Ctx) assumeTyped(s *State, v Value, t types.Type) {
+	if c.inQuant > 0 {
+		return // terms mention bound variables; byte ranges come from the per-memory axioms
+	}
 	switch u := t.Underlying().(type) {
 	case *types.Slice:
 		s.assume(c.sliceWF(v.(SliceV)))
@@ -476,6 +482,7 @@ func (c *Ctx) heapGet(s *State, key, sort string) string {
 	}
 	name := fmt.Sprintf("%s~e%d", sanitize(key), epoch)
 	c.declare(name, sort)
+	c.noteByteMem(key, name)
 	s.heap[key] = name
 	if epoch == 0 && c.entry != nil {
 		if _, ok := c.entry.heap[key]; !ok {
@@ -501,6 +508,7 @@ func (c *Ctx) heapSet(s *State, key, sort, term string) {
 func (c *Ctx) heapHavoc(s *State, key, sort string) {
 	c.sorts[key] = sort
 	s.heap[key] = c.fresh(sanitize(key), sort)
+	c.noteByteMem(key, s.heap[key])
 	if s.written != nil {
 		s.written[key] = true
 	}
@@ -518,6 +526,12 @@ func (c *Ctx) pendingHavoc(s *State, prefix string) {
 	}
 	if s.written != nil {
 		s.written["*"+prefix] = true
+	}
+}
+
+func (c *Ctx) noteByteMem(key, name string) {
+	if key == "M.byte" || key == "M.uint8" {
+		c.byteMems[name] = true
 	}
 }
 
@@ -603,6 +617,9 @@ func (c *Ctx) allocSlice(s *State, elem types.Type, length, capacity string, zer
 			content = "((as const (Array Int Int)) " + z + ")"
 		} else {
 			content = c.fresh("arr", sA1)
+			if key == "M.byte" || key == "M.uint8" {
+				c.byteArrs[content] = true
+			}
 		}
 		c.heapSet(s, key, sA2, store(m, ref, content))
 	}
